@@ -75,14 +75,17 @@ _SENTINEL_NAMES = ['random', 'randint', 'choice', 'shuffle', 'sample', 'randrang
 
 
 def install_random_sentinel():
-    """Any draw from the global `random` module that the chooser does not own raises."""
+    """Any draw from the global `random` module is routed to the active chooser (mc.chooser); a draw
+    the chooser cannot own (random(), gauss(), ...) or one made while no chooser is active raises."""
+    from . import chooser
+
     def make(name):
         def sentinel(*a, **k):
-            raise UnownedRandomness("random.%s called outside the chooser" % name)
+            raise UnownedRandomness("random.%s called: not an enumerable choice" % name)
         sentinel.__name__ = 'sentinel_' + name
         return sentinel
     for name in _SENTINEL_NAMES:
-        setattr(random, name, make(name))
+        setattr(random, name, chooser.DISPATCH.get(name) or make(name))
 
 
 def import_library(with_cplex_stub):
